@@ -489,38 +489,35 @@ theorem allowed_le (s : State) (st : St) :
 
 /-! ### panic sites of package bfe_spdy (regenerated list: BfeVerif.Generated.C40.panicSites) -/
 
-/-- disposition of every `panic(` site: ((file, function, message), disposition) -/
-def panicTable : List ((String × String × String) × String) := [
-  (("flow.go", "take", "internal error: took too much"),
-    "modelled (flowTake = none): unreachable from processData (C40_no_panic) and from the scheduler (C40_out_window: every chunk is at most available())"),
-  (("response_writer.go", "Header", "Header called after Handler finished"), "handler misuse after return: outside the model (scripted handlers stop using w at `finish`)"),
-  (("response_writer.go", "WriteHeader", "WriteHeader called after Handler finished"), "handler misuse after return: outside the model"),
-  (("response_writer.go", "write", "Write called after Handler finished"), "handler misuse after return: outside the model"),
-  (("response_writer.go", "handlerDone", "handlerDone called twice"), "called once from runHandler's defer: outside the model"),
-  (("response_writer.go", "Flush", "Header called after Handler finished"), "handler misuse after return: outside the model"),
-  (("response_writer.go", "CloseNotify", "CloseNotify called after Handler finished"), "handler misuse after return: outside the model"),
-  (("server_conn.go", "setTimeout", "internal error: bad request body"), "timeout API called with a body of another connection: outside the model"),
-  (("server_conn.go", "startFrameWrite", "internal error: can only be writing one frame at a time"), "writeFrames hand-off protocol (writingFrame flag): below the model's granularity; exercised"),
-  (("server_conn.go", "startFrameWrite", "internal error: attempt to send frame on half-closed-local stream"), "stateHalfClosedLocal only exists inside wroteFrame: below the model's granularity; exercised"),
-  (("server_conn.go", "startFrameWrite", "internal error: attempt to send a write %v on a closed stream"), "frames for closed streams are dropped by writeFrame before they reach the scheduler (fix C40-closed-stream-writes); modelled as skipped; exercised"),
-  (("server_conn.go", "wroteFrame", "internal error: expected to be already writing a frame"), "writeFrames hand-off protocol: below the model's granularity; exercised"),
-  (("server_conn.go", "wroteFrame", "unbuffered done channel passed in for type %T"), "all done channels are made with capacity 1: outside the model"),
-  (("server_conn.go", "wroteFrame", "internal error: expecting non-nil stream"), "FIN frames always carry their stream: outside the model"),
-  (("server_conn.go", "endsStream", "endsStream called on nil writeFramer"), "defensive: outside the model"),
-  (("server_conn.go", "closeStream", "invariant; can't close stream in state %v"), "modelled: `close` acts on streams found alive only (find); exercised"),
-  (("server_conn.go", "notePanic", "<expr>"), "re-panic of a recovered panic under a test hook: outside the model"),
-  (("server_flow_control.go", "sendWindowUpdate32", "negative update"), "n comes from a Read count or pipe.Discard(): never negative; outside the model"),
-  (("server_flow_control.go", "sendWindowUpdate32", "internal error; sent too many window updates without decrements?"), "modelled as flowAdd failing on an inbound window: per stream impossible by the trace invariant (inflow + unread <= 65536); for the connection window NOT proved (needs the sum over streams), exercised"),
-  (("server_process_frame.go", "processData", "internal error: should have a body in this state"), "stateOpen streams are created with a body pipe (hasBody = isOpen at creation): exercised"),
-  (("server_process_frame.go", "processData", "internal error: bad Writer"), "the fixed buffer holds 65536 bytes and inflow + unread <= 65536 (trace invariant): a short write would first be an error; exercised"),
-  (("server_write_sched.go", "putEmptyQueue", "queue must be empty"), "scheduler queue bookkeeping: below the model's granularity; exercised"),
-  (("server_write_sched.go", "take", "internal error: ws.maxFrameSize not initialized or invalid"), "maxFrameSize is the constant 16384: outside the model"),
-  (("server_write_sched.go", "take", "should be empty"), "scheduler scratch slice: below the model's granularity; exercised"),
-  (("server_write_sched.go", "streamWritableBytes", "internal error: ws.maxFrameSize not initialized or invalid"), "maxFrameSize is the constant 16384: outside the model"),
-  (("server_write_sched.go", "head", "invalid use of queue"), "scheduler queue bookkeeping: below the model's granularity; exercised"),
-  (("server_write_sched.go", "shift", "invalid use of queue"), "scheduler queue bookkeeping: below the model's granularity; exercised"),
-  (("spdy.go", "mustUint31", "out of range"), "not called in the package: outside the model") ]
+/-- disposition of every `panic(` message of the package: (message, number of sites, [where it was when classified]
+    disposition).  Keyed by message and count only, so that moving a site into a helper or another file changes nothing. -/
+def panicTable : List (String × Nat × String) := [
+  ("internal error: took too much", 1, "[flow.go take] modelled (flowTake = none): unreachable from processData (C40_no_panic) and from the scheduler (C40_out_window: every chunk is at most available())"),
+  ("Header called after Handler finished", 2, "[response_writer.go Flush, response_writer.go Header] handler misuse after return: outside the model (scripted handlers stop using w at `finish`)"),
+  ("WriteHeader called after Handler finished", 1, "[response_writer.go WriteHeader] handler misuse after return: outside the model"),
+  ("Write called after Handler finished", 1, "[response_writer.go write] handler misuse after return: outside the model"),
+  ("handlerDone called twice", 1, "[response_writer.go handlerDone] called once from runHandler's defer: outside the model"),
+  ("CloseNotify called after Handler finished", 1, "[response_writer.go CloseNotify] handler misuse after return: outside the model"),
+  ("internal error: bad request body", 1, "[server_conn.go setTimeout] timeout API called with a body of another connection: outside the model"),
+  ("internal error: can only be writing one frame at a time", 1, "[server_conn.go startFrameWrite] writeFrames hand-off protocol (writingFrame flag): below the model's granularity; exercised"),
+  ("internal error: attempt to send frame on half-closed-local stream", 1, "[server_conn.go startFrameWrite] stateHalfClosedLocal only exists inside wroteFrame: below the model's granularity; exercised"),
+  ("internal error: attempt to send a write %v on a closed stream", 1, "[server_conn.go startFrameWrite] frames for closed streams are dropped by writeFrame before they reach the scheduler (fix C40-closed-stream-writes); modelled as skipped; exercised"),
+  ("internal error: expected to be already writing a frame", 1, "[server_conn.go wroteFrame] writeFrames hand-off protocol: below the model's granularity; exercised"),
+  ("unbuffered done channel passed in for type %T", 1, "[server_conn.go wroteFrame] all done channels are made with capacity 1: outside the model"),
+  ("internal error: expecting non-nil stream", 1, "[server_conn.go wroteFrame] FIN frames always carry their stream: outside the model"),
+  ("endsStream called on nil writeFramer", 1, "[server_conn.go endsStream] defensive: outside the model"),
+  ("invariant; can't close stream in state %v", 1, "[server_conn.go closeStream] modelled: `close` acts on streams found alive only (find); exercised"),
+  ("<expr>", 1, "[server_conn.go notePanic] re-panic of a recovered panic under a test hook: outside the model"),
+  ("negative update", 1, "[server_flow_control.go sendWindowUpdate32] n comes from a Read count or pipe.Discard(): never negative; outside the model"),
+  ("internal error; sent too many window updates without decrements?", 1, "[server_flow_control.go sendWindowUpdate32] modelled as flowAdd failing on an inbound window: per stream impossible by the trace invariant (inflow + unread <= 65536); for the connection window NOT proved (needs the sum over streams), exercised"),
+  ("internal error: should have a body in this state", 1, "[server_process_frame.go processData] stateOpen streams are created with a body pipe (hasBody = isOpen at creation): exercised"),
+  ("internal error: bad Writer", 1, "[server_process_frame.go processData] the fixed buffer holds 65536 bytes and inflow + unread <= 65536 (trace invariant): a short write would first be an error; exercised"),
+  ("queue must be empty", 1, "[server_write_sched.go putEmptyQueue] scheduler queue bookkeeping: below the model's granularity; exercised"),
+  ("internal error: ws.maxFrameSize not initialized or invalid", 2, "[server_write_sched.go streamWritableBytes, server_write_sched.go take] maxFrameSize is the constant 16384: outside the model"),
+  ("should be empty", 1, "[server_write_sched.go take] scheduler scratch slice: below the model's granularity; exercised"),
+  ("invalid use of queue", 2, "[server_write_sched.go head, server_write_sched.go shift] scheduler queue bookkeeping: below the model's granularity; exercised"),
+  ("out of range", 1, "[spdy.go mustUint31] not called in the package: outside the model") ]
 
-def classifySite (s : String × String × String) : Bool := panicTable.any fun e => e.1 == s
+def classifySite (s : String × Nat) : Bool := panicTable.any fun e => e.1 == s.1 && e.2.1 == s.2
 
 end BfeVerif.C40
